@@ -62,7 +62,7 @@ def oracle(case, rec, res, base, K):
     if res.output_tokens != base["tokens"]:
         raise Violation("C16:output-token-count", f"{res.output_tokens} output tokens, failure-free run has {base['tokens']}")
     if res.output != base["output"] or res.output != ref:
-        raise Violation("C16:" + K.output_kind(res.output, ref), f"with failures {res.output!r}\nfailure-free {base['output']!r}\nreference {ref!r}\nplan {res.plan}")
+        raise Violation("C16:" + view.output_kind(res.output, ref), f"with failures {res.output!r}\nfailure-free {base['output']!r}\nreference {ref!r}\nplan {res.plan}")
     if res.unjustified_lost:
         raise Violation("C16:output-file-missing", f"{res.unjustified_lost} not on disk although no deletion followed their production")
     if not res.terminated_ok:
